@@ -56,6 +56,8 @@ class NonlinearConstraintsConfig(ImmutableBaseModel):
 
     @model_validator(mode="after")
     def _broadcast_and_check(self, info: ValidationInfo) -> Self:
+        if self._is_validated():
+            return self
         lower_bounds, upper_bounds = broadcast_arrays(
             self.lower_bounds, self.upper_bounds
         )
